@@ -107,7 +107,7 @@ func c20Handlers(c *core.Ctx) {
 		}
 	}
 	// ---- TrafficController methods
-	mutexF := structField(c, c20tc, "TrafficController", "mutex")
+	mutexF := c20TCMutexField(c)
 	methods := 0
 	for _, m := range []struct{ name, role string }{
 		{"CreateTrafficGate", "create"}, {"CreatePipeline", "create"},
